@@ -117,6 +117,19 @@ pub fn open_flow(
                 }
             }
 
+            // when the flow asset is the same denom as the fee, the funds sent must cover the whole
+            // declared amount, i.e. flow + fee, otherwise the flow would be backed by someone else's funds
+            if let AssetInfo::NativeToken {
+                denom: flow_asset_denom,
+            } = flow_asset.info.clone()
+            {
+                if flow_fee_denom == flow_asset_denom
+                    && paid_amount != flow_asset.amount.checked_add(flow_fee.amount)?
+                {
+                    return Err(ContractError::FlowAssetNotSent);
+                }
+            }
+
             // send fee to fee collector
             messages.push(
                 BankMsg::Send {
